@@ -35,6 +35,10 @@ func run(param json.RawMessage, ctx *explore.Ctx, viols *[]xrun.Viol) string {
 func main() {
 	flag.Parse()
 	par.ServeIfWorker(map[string]par.Handler{"x": xrun.Handler(run)})
+	if v, ok := ev.ReplayRequested(); ok {
+		xrun.Replay(v, run)
+		return
+	}
 	if os.Getenv("VERIF_DEBUG") != "" {
 		cfg := loopworld.Cfg{Native: os.Getenv("VERIF_DEBUG") == "native", Remote2: true, Straddle: true, MaxVisits: 2}
 		ctx := explore.NewCtx(nil)
@@ -96,7 +100,7 @@ func main() {
 	r := ev.Start("C03")
 	defer r.RecoverMain()
 	defer world.Cleanup()
-	r.SetBudget(ev.Pick(r, 120*time.Second, 30*time.Minute))
+	r.SetBudget(ev.Pick(r, 150*time.Second, 30*time.Minute))
 	r.Assume("steady state: initial content was written and mirrored by a previous complete sync step; all remote versions are older than anything the application writes, so any change of an application-written key is a violation",
 		"goroutine scheduling follows a fixed policy (background downloads run to completion before the loop continues); the explored choices are the environment's answers: application commits at every loop hook, straddling application transactions, remote snapshot arrival")
 	bound := ev.Pick(r, 2, 3)
@@ -104,6 +108,12 @@ func main() {
 		name := map[bool]string{true: "native", false: "shadow"}[native]
 		xrun.Explore(r, "loop-"+name, xrun.Opts{Kind: "x", Bound: bound, Budget: 30, Recycle: 4,
 			Param: loopworld.Cfg{Native: native, Remote2: true, Straddle: true, MaxVisits: 2}})
+		if r.Expired() {
+			continue
+		}
+		// with the tomb sweeper enabled: stale remote deletion markers meet live local data
+		xrun.Explore(r, "loop-"+name+"-sweeper-enabled", xrun.Opts{Kind: "x", Bound: ev.Pick(r, 2, 3), Budget: 30, Recycle: 4,
+			Param: loopworld.Cfg{Native: native, Remote2: true, Sweeper: true, MaxVisits: 1, AppOps: []string{"put-a", "put-b", "del-a"}}})
 	}
 	r.Finish()
 }
